@@ -150,16 +150,20 @@ theorem ingestSpec_append (s : Store) (a b : List Node) :
       simp [hm, this]
   simp only [ingestSpec, key, linksOf_append, List.append_assoc]
 
-/-- loop invariant of ingestion: the pending links are the links of the pending spans -/
+/-- earliest start / latest end seen while ingesting a stream (what `DataHolder.save_data` tracks) -/
+def minStart (mn : Int) (es : List Node) : Int := es.foldl (fun a n => min a n.start) mn
+def maxStop (mx : Int) (es : List Node) : Int := es.foldl (fun a n => max a n.stop) mx
+
+/-- loop invariant of ingestion: the pending links are the links of the pending spans; the tracked
+minimum / maximum are those of the stream, whatever is stored -/
 theorem ingest_loop (batch : Nat) (s : Store) (hs : Inv s) (es : List Node) :
     ∀ (q : List Node) (mn mx : Int),
-      ∃ mn' mx', ingest batch ⟨s, q, linksOf q, mn, mx⟩ es =
-        (⟨ingestSpec s (q ++ es), [], [], mn', mx'⟩, .ok) := by
+      ingest batch ⟨s, q, linksOf q, mn, mx⟩ es =
+        (⟨ingestSpec s (q ++ es), [], [], minStart mn es, maxStop mx es⟩, .ok) := by
   induction es generalizing s with
   | nil =>
     intro q mn mx
-    refine ⟨mn, mx, ?_⟩
-    simp only [ingest, exitHolder, commitUnique_spec s hs q, List.append_nil]
+    simp only [ingest, exitHolder, commitUnique_spec s hs q, List.append_nil, minStart, maxStop, List.foldl_nil]
   | cons n ns ih =>
     intro q mn mx
     have hl : linksOf q ++ (linkOf n).toList = linksOf (q ++ [n]) := by
@@ -167,15 +171,13 @@ theorem ingest_loop (batch : Nat) (s : Store) (hs : Inv s) (es : List Node) :
     simp only [ingest, saveData, hl]
     by_cases hb : batch ≤ (q ++ [n]).length
     · simp only [hb, ite_true, commitUnique_spec s hs (q ++ [n])]
-      obtain ⟨mn', mx', h⟩ := ih (ingestSpec s (q ++ [n])) (ingestSpec_inv s hs _) [] (min mn n.start) (max mx n.stop)
-      refine ⟨mn', mx', ?_⟩
+      have h := ih (ingestSpec s (q ++ [n])) (ingestSpec_inv s hs _) [] (min mn n.start) (max mx n.stop)
       have e0 : linksOf ([] : List Node) = [] := rfl
       rw [e0] at h
       rw [h, List.nil_append, ingestSpec_append, List.append_assoc]
       rfl
     · simp only [hb, ite_false]
-      obtain ⟨mn', mx', h⟩ := ih s hs (q ++ [n]) (min mn n.start) (max mx n.stop)
-      refine ⟨mn', mx', ?_⟩
+      have h := ih s hs (q ++ [n]) (min mn n.start) (max mx n.stop)
       rw [h, List.append_assoc]
       rfl
 
@@ -185,7 +187,7 @@ theorem ingest_spec (batch : Nat) (s : Store) (hs : Inv s) (es : List Node) :
     (ingest batch (Holder.fresh s) es).2 = .ok ∧
     (ingest batch (Holder.fresh s) es).1.store = ingestSpec s es ∧
     (ingest batch (Holder.fresh s) es).1.pendNodes = [] := by
-  obtain ⟨mn', mx', h⟩ := ingest_loop batch s hs es [] maxInt64 0
+  have h := ingest_loop batch s hs es [] maxInt64 0
   have e0 : linksOf ([] : List Node) = [] := rfl
   rw [e0, List.nil_append] at h
   unfold Holder.fresh
